@@ -90,6 +90,9 @@ HISTORY_GRAMMARS = [
     ("M: xs+=ID[','] ys*=INT['and'] z=STRING?;", {'memoization': True}),
 ]
 _HISTORY_DONE = []
+# which history grammar the process compiles first (the compiler's own parser is built and cached with
+# the first compilation of a process)
+HISTORY_ROTATION = [0]
 
 
 def live_parsers():
@@ -97,7 +100,8 @@ def live_parsers():
     from textx import metamodel_from_str, metamodel_for_language
     if not _HISTORY_DONE:
         _HISTORY_DONE.append(True)
-        for g, cfg in HISTORY_GRAMMARS:
+        r = HISTORY_ROTATION[0] % len(HISTORY_GRAMMARS)
+        for g, cfg in HISTORY_GRAMMARS[r:] + HISTORY_GRAMMARS[:r]:
             metamodel_from_str(g, **cfg).model_from_str  # compiled; nothing else is done with them
     metamodel_from_str("A: 'a';")            # makes language_from_str build/cache its parser
     pa = L.textX_parsers[False]
@@ -422,6 +426,18 @@ def differential(item):
     return n, bad
 
 
+def history_obligation(item):
+    """an obligation in a process whose first compiled grammar is another one (runs in a fresh process)"""
+    HISTORY_ROTATION[0] = item[0]
+    r = obligation(item[1:])
+    for v in r['violations']:
+        v['history_rotation'] = item[0]
+    return r
+
+
+HISTORY_TEMPLATES = ('reference', 'import', 'rule-params-in', 'repeat-mod', 'rrel-flag', 'rrel-parent', 'asg-mod')
+
+
 def main():
     import textx.lang as L
     import textx.scoping.rrel as R
@@ -437,6 +453,11 @@ def main():
             items.append((name, pre, post, w, budget, timeout_ms, sorted(chk.known_ids)))
     items.sort(key=lambda it: -it[3])
     results = pmap(obligation, items)
+    # the same obligations in processes that compile the history grammars in another order first
+    hitems = [(rot,) + it for it in items if it[0] in HISTORY_TEMPLATES and it[3] in ((4,) if quick else (4, 6))
+              for rot in range(1, len(HISTORY_GRAMMARS))]
+    items = items + [it[1:] for it in hitems]
+    results = results + pmap(history_obligation, hitems, fresh_process_per_item=True)
     diffs = pmap(differential, [(n, p, q, chk.seed * 1000 + i) for i, (n, p, q) in enumerate(templates)])
     chk.cov['functions_encoded'] = src_hash(
         L.textx_model, L.textx_rule, L.repeatable_expr, L.expression, L.assignment, L.obj_ref,
@@ -444,6 +465,7 @@ def main():
         L.comment, R.rrel_expression, R.rrel_path, R.rrel_navigation, L.language_from_str
     ) + ['textx/textx.tx (compiled by the running textX)']
     chk.cov['bounds'] = {'window_chars': W, 'templates': len(templates),
+                         'process_histories': '%d obligations repeated in fresh processes whose first compiled grammar is each of %d history grammars' % (len(hitems), len(HISTORY_GRAMMARS)),
                          'alphabet': '103 symbols (tab, LF, CR, ASCII 32-126, 5 non-ASCII representatives)',
                          'solver_timeout_ms': timeout_ms, 'counterexample_budget_per_obligation': budget}
     chk.cov['outside_claim'] = ['grammar texts that differ from a template outside its window',
@@ -497,7 +519,15 @@ def main():
                       'of that length is accepted by the compiler parser (vacuity twin sat)')
 
 
-def replay(data):
+def _replay(data):
+    HISTORY_ROTATION[0] = data.get('history_rotation', 0)
     text = data['text']
     ra, rb = real_A(text), real_B(text)
     return ra != rb, {'text': text, 'compiler_accepts': ra, 'textx_tx_accepts': rb}
+
+
+def replay(data):
+    # in a child process: the parent never compiles a grammar, so the child's first compilation is the
+    # one the recorded process history starts with
+    from ..common import run_forked
+    return run_forked(_replay, data)
